@@ -1,13 +1,13 @@
 /-
-Why the refinement theorem needs the side condition "no alias coincides with an unaliased response key of the same
-set" (part of `CohAt`): the witness document
+The defect the refinement proof found (repaired in /repo dda35cd): the witness document
 
     query($v: Boolean!) { a: a @skip(if: $v) { x }   a { y } }
 
-is spec-valid (both fields are `a` with the same arguments), but the printer puts the aliased `a` into `Others` and the
-unaliased `a` into `Obj` of ONE `__SelectionSet`, so the two sub-selections are never merged: for v = false the key `a`
-gets the intersection of `{x} | null` and `{y} | null`, for v = true the intersection with `a?: never`.  Helper lemmas
-for the kernel-checked counterexample in Props/C01.lean.
+is spec-valid (both fields are `a` with the same arguments), but the PRE-REPAIR printer (`implTreeOld`) put every aliased
+field — also `a: a` — into `Others` and the unaliased `a` into `Obj` of ONE `__SelectionSet`, so the two sub-selections were
+never merged: for v = false the key `a` got the intersection of `{x} | null` and `{y} | null`, for v = true the intersection
+with `a?: never`.  Helper lemmas for the kernel-checked counterexample in Props/C01.lean, the repaired model's type, and the
+value with a repeated record key.
 -/
 import NitroVerif.Lemmas.OpTypesRefWitness
 namespace NitroVerif.OpTypes.Ref.Cex
@@ -32,11 +32,24 @@ def tyX : Ty := .union [.app sset [oA, .obj objX, .obj []], .prim "null"]
 def tyY : Ty := .union [.app sset [oA, .obj objY, .obj []], .prim "null"]
 def br1 : Ty := .app sset [oQuery, .obj [("a", false, false, tyY)], .obj [("a", false, false, tyX)]]
 def br2 : Ty := .app sset [oQuery, .obj [("a", false, false, tyY)], .obj [("a", false, true, .prim "never")]]
-/-- the emitted (closed) result type -/
+/-- the (closed) result type the PRE-REPAIR printer emitted -/
 def ty : Ty := .union [br1, br2]
 
-theorem tree_ty : ((implTree W.S W.noFrags 16 16 (.nonNull (.named "Query" {})) selAA).toOption.map
+theorem tree_ty : ((implTreeOld W.S W.noFrags 16 16 (.nonNull (.named "Query" {})) selAA).toOption.map
     fun t => W.close (toTs "Schema" t)) = some ty := by rfl
+
+def objXY' : List Field := [("x", false, false, tInt), ("y", false, false, tStr)]
+def tyXY : Ty := .union [.app sset [oA, .obj objXY', .obj []], .prim "null"]
+/-- the (closed) result type the REPAIRED printer emits: `a: a {x}` and `a {y}` are merged -/
+def tyNew : Ty :=
+  .union [.app sset [oQuery, .obj [("a", false, false, tyXY)], .obj []],
+          .app sset [oQuery, .obj [("a", false, false, tyY)], .obj []]]
+
+theorem tree_tyNew : ((implTree W.S W.noFrags 16 16 (.nonNull (.named "Query" {})) selAA).toOption.map
+    fun t => W.close (toTs "Schema" t)) = some tyNew := by rfl
+
+theorem resp_mem_new : Mem W.env resp tyNew := by
+  apply memG_sound 12; decide +kernel
 
 set_option maxRecDepth 16384 in
 theorem hook1 : W.env.appHook W.env.decls sset [oQuery, .obj [("a", false, false, tyY)], .obj [("a", false, false, tyX)]]
